@@ -1,7 +1,8 @@
 ------------------------------ MODULE Trace_C01 ------------------------------
 (* Trace validation for C01: every log line is one schema with the verdicts the real     *)
-(* validator gave for each value of the value list, in both input forms (float64 and     *)
-(* json.Number) and through IsMatching.  TLC evaluates the reference semantics           *)
+(* validator gave for each value of the value list, in the input forms the API takes     *)
+(* (of: float64 numbers, on: json.Number, og: integral numbers as Go int) and through    *)
+(* IsMatching (om).  TLC evaluates the reference semantics           *)
 (* (SchemaSem!Valid) on each (schema, value) and rejects the line on any difference.     *)
 EXTENDS SchemaUniverse, SchemaImpl, FindingsC01, Json, CSV
 
@@ -25,17 +26,19 @@ ModelAgrees(line) ==
 
 Mismatches(line) ==
    LET vs == TheVals(line) IN
-   {m \in [i : DOMAIN vs, form : {"of", "on", "om"}] : line[m.form][m.i] # Want(line.s, vs[m.i])}
+   {m \in [i : DOMAIN vs, form : {"of", "on", "om", "og"}] : line[m.form][m.i] # Want(line.s, vs[m.i])}
+
+Shared(line) == "share" \in DOMAIN line      \* repeated sub-schemas realised as references to one shared component
 
 Report(line, m) ==
    LET v == TheVals(line)[m.i] IN
-   [case |-> line.case, s |-> line.s, i |-> m.i, v |-> v, form |-> m.form,
+   [case |-> line.case, s |-> line.s, share |-> Shared(line), i |-> m.i, v |-> v, form |-> m.form,
     got |-> line[m.form][m.i], want |-> Want(line.s, v),
     class |-> Class(line, m.i, m.form, v, Want(line.s, v))]
 
 LineOK(line) ==
    IF line.load # "ok"
-   THEN CSVWrite("%1$s", <<ToJson([case |-> line.case, s |-> line.s, got |-> line.load, class |-> "none",
+   THEN CSVWrite("%1$s", <<ToJson([case |-> line.case, s |-> line.s, share |-> Shared(line), got |-> line.load, class |-> "none",
                                     failed |-> "schema_does_not_load"])>>, "violations.ndjson")
    ELSE /\ \A m \in Mismatches(line) :
               CSVWrite("%1$s", <<ToJson(Report(line, m))>>, "violations.ndjson")
